@@ -82,6 +82,17 @@ func c19Project(pts []*object.Point, code int, n int) string {
 	return sb.String()
 }
 
+// c19ShiftBurst shifts one ID n times (a function that remembers its last argument is hit again and again while other
+// goroutines do the same with another ID) and renders every result.
+func c19ShiftBurst(id string, n int) string {
+	var sb strings.Builder
+	for i := 0; i < n; i++ {
+		sb.WriteString(operated.GetShiftingSpatialID(id, int64(i%3)-1, int64(i%5)-2, int64(i%2)))
+		sb.WriteString(";")
+	}
+	return sb.String()
+}
+
 // c19ProjectAll: n conversions, every one rendered (a wrong reference system in any repetition shows)
 func c19ProjectAll(pts []*object.Point, code int, n int) string {
 	var sb strings.Builder
@@ -173,6 +184,7 @@ var c19Ops = []c19Op{
 		}
 		return fmt.Sprint(out)
 	}},
+	{"operated.GetShiftingSpatialID x60 (one ID)", func(w *c19World) string { return c19ShiftBurst(w.ext[len(w.ext)-1], 60) }},
 	{"operated.Get6+8+26", func(w *c19World) string {
 		return fmt.Sprint(operated.Get6spatialIdsAdjacentToFaces(w.ext[0]), operated.Get8spatialIdsAroundHorizontal(w.ext[0]), operated.Get26spatialIdsAroundVoxel(w.ext[0]))
 	}},
@@ -639,6 +651,11 @@ func c19Fan(c *CaseC19, w *c19World, fl *Fails) {
 		}},
 		{"transform.GetExtendedSpatialIdsWithinRadiusOfLine(not measured)", func(w *c19World) string {
 			return cs(transform.GetExtendedSpatialIdsWithinRadiusOfLine(w.cpts[0], w.cpts[1], w.radius, w.ch, w.ch, true))
+		}},
+		{"operated.GetShiftingSpatialID(one ID) x300", func(w *c19World) string { return c19ShiftBurst(w.ext[0], 300) }},
+		{"operated.GetShiftingSpatialID(another ID) x300", func(w *c19World) string {
+			b, _ := ref.ParseExt(w.ext[0])
+			return c19ShiftBurst(ref.Box{H: b.H + 14, X: b.X<<14 + 7007, Y: b.Y<<14 + 9, V: b.V + 16, F: b.F<<16 + 250}.Ext(), 300)
 		}},
 		{"shape.ConvertPointListToProjectedPointList(UTM 54N) x40", func(w *c19World) string { return c19ProjectAll(w.pts, 32654, 40) }},
 		{"shape.ConvertPointListToProjectedPointList(EPSG:900913) x40", func(w *c19World) string { return c19ProjectAll(w.pts, 900913, 40) }},
